@@ -402,6 +402,8 @@ def coerce(v, ty):
         return mk_some(coerce(v, ty.inner))
     if isinstance(ty, TRef) and isinstance(v.ty, TRef):
         return v          # keep the more specific static class (view aliases depend on it)
+    if isinstance(ty, TOpaque) and ty.sort_name == "Data" and isinstance(v.ty, TNone):
+        return Val(ty, [z3.Const("none!Data", ty.comps()[0])])      # None used as a data value: one distinguished constant
     if isinstance(ty, TOpaque) and ty.sort_name == "Data" and isinstance(v.ty, TRef):
         srt = v.terms[0].sort()      # an object used as a data value: uninterpreted embedding
         return Val(ty, [z3.Function("box!%s!Data" % srt, srt, ty.comps()[0])(v.terms[0])])
